@@ -13,6 +13,7 @@
 -/
 import Tranp.Lemmas.RunnerWitness
 import Tranp.Lemmas.RunnerPaths
+import Tranp.Generated.RunnerHeader
 
 namespace Tranp.C06
 open Tranp Tranp.Runner
@@ -100,6 +101,103 @@ theorem untouched {σ : Type} (E : Env σ) (w : World σ) (argForce : Bool) :
 example : (runStep (wEnv outDep) (exec (wEnv outDep) wWorld wOps) false).written = [['/', 'o', '/', 'c', '.', 'h']] ∧
     ((runStep (wEnv outDep) (exec (wEnv outDep) wWorld wOps) false).world.files ['/', 'o', '/', 'b', '.', 'h']).map (·.mtime) = some 0 := by
   decide +kernel
+
+/-! ## the decision compares exactly the header fields read from the source (Generated/RunnerHeader.lean) -/
+
+/-- The model implements the statements the translator reads from the repository on every run: `Runner.can_transpile` builds
+    the current header from `module_meta_factory(module_path.path)` and `transpiler.meta` and answers `new_meta != old_meta`;
+    `__eq__` compares the identities, the identity is the md5 of `to_json()`, `to_json` serialises version / module /
+    transpiler with the compact separators, `from_json` hands over the same keys, the factory looks the module up by `index`
+    and records `sources.hash(filepath)` and the path; the tag, the TypedDict fields and `Config.force` are the model's.
+    (A change of any of these source shapes changes the generated table and fails this theorem.) -/
+theorem generated_shapes :
+    Generated.RunnerHeader.canTranspile =
+      [['o', 'l', 'd', '_', 'm', 'e', 't', 'a', ' ', '=', ' ', 's', 'e', 'l', 'f', '.', 't', 'r', 'y', '_', 'l', 'o', 'a', 'd', '_', 'm', 'e', 't', 'a', '_', 'h', 'e', 'a', 'd', 'e', 'r', '(', 'm', 'o', 'd', 'u', 'l', 'e', '_', 'p', 'a', 't', 'h', ')'], ['i', 'f', ' ', 'n', 'o', 't', ' ', 'o', 'l', 'd', '_', 'm', 'e', 't', 'a', ':'], ['r', 'e', 't', 'u', 'r', 'n', ' ', 'T', 'r', 'u', 'e'], ['e', 'n', 'd'],
+       ['n', 'e', 'w', '_', 'm', 'e', 't', 'a', ' ', '=', ' ', 'M', 'e', 't', 'a', 'H', 'e', 'a', 'd', 'e', 'r', '(', 's', 'e', 'l', 'f', '.', 'm', 'o', 'd', 'u', 'l', 'e', '_', 'm', 'e', 't', 'a', '_', 'f', 'a', 'c', 't', 'o', 'r', 'y', '(', 'm', 'o', 'd', 'u', 'l', 'e', '_', 'p', 'a', 't', 'h', '.', 'p', 'a', 't', 'h', ')', ',', ' ', 's', 'e', 'l', 'f', '.', 't', 'r', 'a', 'n', 's', 'p', 'i', 'l', 'e', 'r', '.', 'm', 'e', 't', 'a', ')'],
+       ['r', 'e', 't', 'u', 'r', 'n', ' ', 'n', 'e', 'w', '_', 'm', 'e', 't', 'a', ' ', '!', '=', ' ', 'o', 'l', 'd', '_', 'm', 'e', 't', 'a']] ∧
+    Generated.RunnerHeader.newMetaArgs = [['s', 'e', 'l', 'f', '.', 'm', 'o', 'd', 'u', 'l', 'e', '_', 'm', 'e', 't', 'a', '_', 'f', 'a', 'c', 't', 'o', 'r', 'y', '(', 'm', 'o', 'd', 'u', 'l', 'e', '_', 'p', 'a', 't', 'h', '.', 'p', 'a', 't', 'h', ')'], ['s', 'e', 'l', 'f', '.', 't', 'r', 'a', 'n', 's', 'p', 'i', 'l', 'e', 'r', '.', 'm', 'e', 't', 'a']] ∧
+    Generated.RunnerHeader.eq =
+      [['i', 'f', ' ', 't', 'y', 'p', 'e', '(', 'o', 't', 'h', 'e', 'r', ')', ' ', 'i', 's', ' ', 'n', 'o', 't', ' ', 'M', 'e', 't', 'a', 'H', 'e', 'a', 'd', 'e', 'r', ':'], ['r', 'a', 'i', 's', 'e', ' ', 'E', 'r', 'r', 'o', 'r', 's', '.', 'N', 'e', 'v', 'e', 'r', '(', 'o', 't', 'h', 'e', 'r', ',', ' ', '\'', 'N', 'o', 't', ' ', 'a', 'l', 'l', 'o', 'w', 'e', 'd', ' ', 'c', 'o', 'm', 'p', 'a', 'r', 'i', 's', 'o', 'n', '\'', ')'], ['e', 'n', 'd'],
+       ['r', 'e', 't', 'u', 'r', 'n', ' ', 's', 'e', 'l', 'f', '.', 'i', 'd', 'e', 'n', 't', 'i', 't', 'y', ' ', '=', '=', ' ', 'o', 't', 'h', 'e', 'r', '.', 'i', 'd', 'e', 'n', 't', 'i', 't', 'y']] ∧
+    Generated.RunnerHeader.identity = [['r', 'e', 't', 'u', 'r', 'n', ' ', 'h', 'a', 's', 'h', 'l', 'i', 'b', '.', 'm', 'd', '5', '(', 's', 'e', 'l', 'f', '.', 't', 'o', '_', 'j', 's', 'o', 'n', '(', ')', '.', 'e', 'n', 'c', 'o', 'd', 'e', '(', '\'', 'u', 't', 'f', '-', '8', '\'', ')', ')', '.', 'h', 'e', 'x', 'd', 'i', 'g', 'e', 's', 't', '(', ')']] ∧
+    Generated.RunnerHeader.toJsonKeys =
+      [(kVersion, ['s', 'e', 'l', 'f', '.', 'a', 'p', 'p', '_', 'v', 'e', 'r', 's', 'i', 'o', 'n']), (kModule, ['s', 'e', 'l', 'f', '.', 'm', 'o', 'd', 'u', 'l', 'e', '_', 'm', 'e', 't', 'a']), (kTranspiler, ['s', 'e', 'l', 'f', '.', 't', 'r', 'a', 'n', 's', 'p', 'i', 'l', 'e', 'r', '_', 'm', 'e', 't', 'a'])] ∧
+    Generated.RunnerHeader.toJsonSeparators = ['(', '\'', ',', '\'', ',', ' ', '\'', ':', '\'', ')'] ∧
+    Generated.RunnerHeader.initAssigns =
+      [(['s', 'e', 'l', 'f', '.', 'a', 'p', 'p', '_', 'v', 'e', 'r', 's', 'i', 'o', 'n'], ['a', 'p', 'p', '_', 'v', 'e', 'r', 's', 'i', 'o', 'n', ' ', 'o', 'r', ' ', 'V', 'e', 'r', 's', 'i', 'o', 'n', 's', '.', 'a', 'p', 'p']), (['s', 'e', 'l', 'f', '.', 'm', 'o', 'd', 'u', 'l', 'e', '_', 'm', 'e', 't', 'a'], ['m', 'o', 'd', 'u', 'l', 'e', '_', 'm', 'e', 't', 'a']),
+       (['s', 'e', 'l', 'f', '.', 't', 'r', 'a', 'n', 's', 'p', 'i', 'l', 'e', 'r', '_', 'm', 'e', 't', 'a'], ['t', 'r', 'a', 'n', 's', 'p', 'i', 'l', 'e', 'r', '_', 'm', 'e', 't', 'a'])] ∧
+    Generated.RunnerHeader.fromJsonKeys = [kModule, kTranspiler, kVersion] ∧
+    Generated.RunnerHeader.tag = Tag ∧
+    Generated.RunnerHeader.toHeaderStr = [['r', 'e', 't', 'u', 'r', 'n', ' ', 'f', '\'', '{', 's', 'e', 'l', 'f', '.', 'T', 'a', 'g', '}', ':', ' ', '{', 's', 'e', 'l', 'f', '.', 't', 'o', '_', 'j', 's', 'o', 'n', '(', ')', '}', '\'']] ∧
+    Generated.RunnerHeader.tryFromContent =
+      [['h', 'e', 'a', 'd', 'e', 'r', '_', 'b', 'e', 'g', 'i', 'n', ' ', '=', ' ', 'c', 'o', 'n', 't', 'e', 'n', 't', '.', 'f', 'i', 'n', 'd', '(', 'M', 'e', 't', 'a', 'H', 'e', 'a', 'd', 'e', 'r', '.', 'T', 'a', 'g', ')'], ['i', 'f', ' ', 'h', 'e', 'a', 'd', 'e', 'r', '_', 'b', 'e', 'g', 'i', 'n', ' ', '=', '=', ' ', '-', '1', ':'], ['r', 'e', 't', 'u', 'r', 'n', ' ', 'N', 'o', 'n', 'e'], ['e', 'n', 'd'],
+       ['j', 's', 'o', 'n', '_', 'b', 'e', 'g', 'i', 'n', ' ', '=', ' ', 'h', 'e', 'a', 'd', 'e', 'r', '_', 'b', 'e', 'g', 'i', 'n', ' ', '+', ' ', 'l', 'e', 'n', '(', 'M', 'e', 't', 'a', 'H', 'e', 'a', 'd', 'e', 'r', '.', 'T', 'a', 'g', ')', ' ', '+', ' ', '1'], ['l', 'i', 'n', 'e', '_', 'b', 'r', 'e', 'a', 'k', ' ', '=', ' ', 'c', 'o', 'n', 't', 'e', 'n', 't', '.', 'f', 'i', 'n', 'd', '(', '\'', '\\', 'n', '\'', ',', ' ', 'j', 's', 'o', 'n', '_', 'b', 'e', 'g', 'i', 'n', ')'],
+       ['j', 's', 'o', 'n', '_', 'e', 'n', 'd', ' ', '=', ' ', 'c', 'o', 'n', 't', 'e', 'n', 't', '.', 'r', 'f', 'i', 'n', 'd', '(', '\'', '}', '\'', ',', ' ', 'j', 's', 'o', 'n', '_', 'b', 'e', 'g', 'i', 'n', ',', ' ', 'l', 'i', 'n', 'e', '_', 'b', 'r', 'e', 'a', 'k', ')', ' ', '+', ' ', '1'], ['r', 'e', 't', 'u', 'r', 'n', ' ', 'c', 'l', 's', '.', 'f', 'r', 'o', 'm', '_', 'j', 's', 'o', 'n', '(', 'c', 'o', 'n', 't', 'e', 'n', 't', '[', 'j', 's', 'o', 'n', '_', 'b', 'e', 'g', 'i', 'n', ':', 'j', 's', 'o', 'n', '_', 'e', 'n', 'd', ']', ')']] ∧
+    Generated.RunnerHeader.moduleMetaFields = [kHash, kPath] ∧
+    Generated.RunnerHeader.transpilerMetaFields = [kVersion, kModule] ∧
+    Generated.RunnerHeader.factoryHandler =
+      [['i', 'n', 'd', 'e', 'x', ' ', '=', ' ', '[', 'm', 'o', 'd', 'u', 'l', 'e', '_', 'p', 'a', 't', 'h', '.', 'p', 'a', 't', 'h', ' ', 'f', 'o', 'r', ' ', 'm', 'o', 'd', 'u', 'l', 'e', '_', 'p', 'a', 't', 'h', ' ', 'i', 'n', ' ', 'm', 'o', 'd', 'u', 'l', 'e', '_', 'p', 'a', 't', 'h', 's', ']', '.', 'i', 'n', 'd', 'e', 'x', '(', 'm', 'o', 'd', 'u', 'l', 'e', '_', 'p', 'a', 't', 'h', ')'], ['t', 'a', 'r', 'g', 'e', 't', '_', 'm', 'o', 'd', 'u', 'l', 'e', '_', 'p', 'a', 't', 'h', ' ', '=', ' ', 'm', 'o', 'd', 'u', 'l', 'e', '_', 'p', 'a', 't', 'h', 's', '[', 'i', 'n', 'd', 'e', 'x', ']'],
+       ['f', 'i', 'l', 'e', 'p', 'a', 't', 'h', ' ', '=', ' ', 'm', 'o', 'd', 'u', 'l', 'e', '_', 'p', 'a', 't', 'h', '_', 't', 'o', '_', 'f', 'i', 'l', 'e', 'p', 'a', 't', 'h', '(', 't', 'a', 'r', 'g', 'e', 't', '_', 'm', 'o', 'd', 'u', 'l', 'e', '_', 'p', 'a', 't', 'h', '.', 'p', 'a', 't', 'h', ',', ' ', 'f', '\'', '.', '{', 't', 'a', 'r', 'g', 'e', 't', '_', 'm', 'o', 'd', 'u', 'l', 'e', '_', 'p', 'a', 't', 'h', '.', 'l', 'a', 'n', 'g', 'u', 'a', 'g', 'e', '}', '\'', ')'],
+       ['r', 'e', 't', 'u', 'r', 'n', ' ', '{', '\'', 'h', 'a', 's', 'h', '\'', ':', ' ', 's', 'o', 'u', 'r', 'c', 'e', 's', '.', 'h', 'a', 's', 'h', '(', 'f', 'i', 'l', 'e', 'p', 'a', 't', 'h', ')', ',', ' ', '\'', 'p', 'a', 't', 'h', '\'', ':', ' ', 'm', 'o', 'd', 'u', 'l', 'e', '_', 'p', 'a', 't', 'h', '}']] ∧
+    Generated.RunnerHeader.py2cppMeta = [(kVersion, ['V', 'e', 'r', 's', 'i', 'o', 'n', 's', '.', 'p', 'y', '2', 'c', 'p', 'p']), (kModule, ['t', 'o', '_', 'f', 'u', 'l', 'l', 'y', 'n', 'a', 'm', 'e', '(', 'P', 'y', '2', 'C', 'p', 'p', ')'])] ∧
+    Generated.RunnerHeader.tryLoadMetaHeader =
+      [['f', 'i', 'l', 'e', 'p', 'a', 't', 'h', ' ', '=', ' ', 's', 'e', 'l', 'f', '.', 'o', 'u', 't', 'p', 'u', 't', '_', 'f', 'i', 'l', 'e', 'p', 'a', 't', 'h', '(', 'm', 'o', 'd', 'u', 'l', 'e', '_', 'p', 'a', 't', 'h', ')'], ['i', 'f', ' ', 'n', 'o', 't', ' ', 's', 'e', 'l', 'f', '.', 's', 'o', 'u', 'r', 'c', 'e', 's', '.', 'e', 'x', 'i', 's', 't', 's', '(', 'f', 'i', 'l', 'e', 'p', 'a', 't', 'h', ')', ':'], ['r', 'e', 't', 'u', 'r', 'n', ' ', 'N', 'o', 'n', 'e'], ['e', 'n', 'd'],
+       ['r', 'e', 't', 'u', 'r', 'n', ' ', 'M', 'e', 't', 'a', 'H', 'e', 'a', 'd', 'e', 'r', '.', 't', 'r', 'y', '_', 'f', 'r', 'o', 'm', '_', 'c', 'o', 'n', 't', 'e', 'n', 't', '(', 's', 'e', 'l', 'f', '.', 's', 'o', 'u', 'r', 'c', 'e', 's', '.', 'l', 'o', 'a', 'd', '(', 'f', 'i', 'l', 'e', 'p', 'a', 't', 'h', ')', ')']] ∧
+    Generated.RunnerHeader.runImpl =
+      [['t', 'a', 'r', 'g', 'e', 't', '_', 'p', 'a', 't', 'h', 's', ' ', '=', ' ', 's', 'e', 'l', 'f', '.', 'm', 'o', 'd', 'u', 'l', 'e', '_', 'p', 'a', 't', 'h', 's', ' ', 'i', 'f', ' ', 's', 'e', 'l', 'f', '.', 'c', 'o', 'n', 'f', 'i', 'g', '.', 'f', 'o', 'r', 'c', 'e', ' ', 'e', 'l', 's', 'e', ' ', '[', 'm', 'o', 'd', 'u', 'l', 'e', '_', 'p', 'a', 't', 'h', ' ', 'f', 'o', 'r', ' ', 'm', 'o', 'd', 'u', 'l', 'e', '_', 'p', 'a', 't', 'h', ' ', 'i', 'n', ' ', 's', 'e', 'l', 'f', '.', 'm', 'o', 'd', 'u', 'l', 'e', '_', 'p', 'a', 't', 'h', 's', ' ', 'i', 'f', ' ', 's', 'e', 'l', 'f', '.', 'c', 'a', 'n', '_', 't', 'r', 'a', 'n', 's', 'p', 'i', 'l', 'e', '(', 'm', 'o', 'd', 'u', 'l', 'e', '_', 'p', 'a', 't', 'h', ')', ']'],
+       ['f', 'o', 'r', ' ', 'm', 'o', 'd', 'u', 'l', 'e', '_', 'p', 'a', 't', 'h', ' ', 'i', 'n', ' ', 't', 'a', 'r', 'g', 'e', 't', '_', 'p', 'a', 't', 'h', 's', ':'], ['c', 'o', 'n', 't', 'e', 'n', 't', ' ', '=', ' ', 's', 'e', 'l', 'f', '.', 't', 'r', 'a', 'n', 's', 'p', 'i', 'l', 'e', 'r', '.', 't', 'r', 'a', 'n', 's', 'p', 'i', 'l', 'e', '(', 's', 'e', 'l', 'f', '.', 'b', 'y', '_', 'e', 'n', 't', 'r', 'y', 'p', 'o', 'i', 'n', 't', '(', 'm', 'o', 'd', 'u', 'l', 'e', '_', 'p', 'a', 't', 'h', ')', ')'],
+       ['w', 'r', 'i', 't', 'e', 'r', ' ', '=', ' ', 'W', 'r', 'i', 't', 'e', 'r', '(', 's', 'e', 'l', 'f', '.', 'o', 'u', 't', 'p', 'u', 't', '_', 'f', 'i', 'l', 'e', 'p', 'a', 't', 'h', '(', 'm', 'o', 'd', 'u', 'l', 'e', '_', 'p', 'a', 't', 'h', ')', ')'], ['w', 'r', 'i', 't', 'e', 'r', '.', 'p', 'u', 't', '(', 'c', 'o', 'n', 't', 'e', 'n', 't', ')'], ['w', 'r', 'i', 't', 'e', 'r', '.', 'f', 'l', 'u', 's', 'h', '(', ')'], ['e', 'n', 'd']] ∧
+    Generated.RunnerHeader.configForce = ['s', 'e', 'l', 'f', '.', 'f', 'o', 'r', 'c', 'e', ' ', '=', ' ', 'a', 'r', 'g', 's', '.', 'f', 'o', 'r', 'c', 'e', ' ', 'o', 'r', ' ', 'c', 'o', 'n', 'f', 'i', 'g', '.', 'g', 'e', 't', '(', '\'', 'f', 'o', 'r', 'c', 'e', '\'', ',', ' ', 'F', 'a', 'l', 's', 'e', ')'] := by
+  decide +kernel
+
+example : Generated.RunnerHeader.currentInputs.map (·.2) =
+    [['V', 'e', 'r', 's', 'i', 'o', 'n', 's', '.', 'a', 'p', 'p'], ['s', 'o', 'u', 'r', 'c', 'e', 's', '.', 'h', 'a', 's', 'h', '(', 'f', 'i', 'l', 'e', 'p', 'a', 't', 'h', ')'], ['m', 'o', 'd', 'u', 'l', 'e', '_', 'p', 'a', 't', 'h', '.', 'p', 'a', 't', 'h'], ['V', 'e', 'r', 's', 'i', 'o', 'n', 's', '.', 'p', 'y', '2', 'c', 'p', 'p'], ['t', 'o', '_', 'f', 'u', 'l', 'l', 'y', 'n', 'a', 'm', 'e', '(', 'P', 'y', '2', 'C', 'p', 'p', ')']] := by
+  decide +kernel
+
+/-- The header the model builds has exactly the generated compared fields — no more, no fewer — and they carry the current
+    inputs: application version, md5 of the module's own source, module path, transpiler version, transpiler module. -/
+theorem compared_fields_generated {σ : Type} (E : Env σ) (v : Vers) (s : σ) (m : Str) :
+    (curHeader E v s m).toJsonVal.leafPaths = Generated.RunnerHeader.comparedFields ∧
+    Generated.RunnerHeader.comparedFields.map (curHeader E v s m).toJsonVal.getPath =
+      [some (.str v.app), some (.str (E.hash s)), some (.str m), some (.str v.py2cpp), some (.str E.tModule)] := by
+  constructor <;> rfl
+
+example : Generated.RunnerHeader.comparedFields.length = 5 ∧
+    Generated.RunnerHeader.currentInputs.length = Generated.RunnerHeader.comparedFields.length := by decide
+
+/-- A skipped module (`can_transpile` answers False) has an output file whose header parses and has the identity of the header
+    built from the current inputs; and when md5 does not collide on these two texts and `json.loads` decodes both, EVERY generated
+    compared field of the stored header equals the current input (so dropping a field from the comparison breaks this theorem). -/
+theorem skip_implies_equal_header_inputs {σ : Type} (E : Env σ) (w : World σ) (m : Str) (h : canTranspile E w m = .ok false) :
+    ∃ p f old, outputFilepath w.cfg m = .ok p ∧ w.files p = some f ∧
+      tryFromContent E.loads w.ver.app f.content = .ok (some old) ∧
+      E.md5 (curHeader E w.ver (w.src m) m).toJson = E.md5 old.toJson ∧
+      ((E.md5 (curHeader E w.ver (w.src m) m).toJson = E.md5 old.toJson → (curHeader E w.ver (w.src m) m).toJson = old.toJson) →
+        E.loads (' ' :: old.toJson) = .ok old.toJsonVal →
+        E.loads (' ' :: (curHeader E w.ver (w.src m) m).toJson) = .ok (curHeader E w.ver (w.src m) m).toJsonVal →
+        Generated.RunnerHeader.comparedFields.map old.toJsonVal.getPath =
+          [some (.str w.ver.app), some (.str (E.hash (w.src m))), some (.str m), some (.str w.ver.py2cpp), some (.str E.tModule)]) := by
+  obtain ⟨p, f, old, hp, hf, ht, hmd5⟩ := canTranspile_false_decision E w m h
+  refine ⟨p, f, old, hp, hf, ht, hmd5, fun hinj hlo hlc => ?_⟩
+  have htj := hinj hmd5
+  rw [htj, hlo] at hlc
+  injection hlc with hval
+  rw [hval]
+  exact (compared_fields_generated E w.ver (w.src m) m).2
+
+example : canTranspile (wEnv outDep) (exec (wEnv outDep) wWorld [.run false]) mB = .ok false ∧
+    (∀ a b : Str, (wEnv outDep).md5 a = (wEnv outDep).md5 b → a = b) ∧
+    (wEnv outDep).loads (' ' :: (curHeader (wEnv outDep) wV1 false mB).toJson) = .ok (curHeader (wEnv outDep) wV1 false mB).toJsonVal :=
+  ⟨by decide +kernel, fun _ _ h => h, w_loadsSound outDep wV1 (by simp [wVers]) false mB (by simp)⟩
+
+/-- The shipped version constants (read from data/version.py) satisfy the non-emptiness the history theorems ask of a release. -/
+theorem shipped_versions_nonempty : VersNonEmpty [⟨Generated.RunnerHeader.versionsApp, Generated.RunnerHeader.versionsPy2cpp⟩] := by
+  intro v hv
+  simp only [List.mem_cons, List.not_mem_nil, or_false] at hv
+  subst hv
+  decide
+
+example : Generated.RunnerHeader.versionsApp = ['1', '.', '0', '.', '0'] := by decide
 
 /-! ## `-f` -/
 
@@ -320,6 +418,18 @@ example : exampleCfg.dirs = [['.', '/']] ∧ Str.startsWith exampleCfg.cwd ['/']
     CleanMod ['a', 'p', 'p', '.', 'x'] ∧ ¬ CleanMod ['a', '.', '.', 'x'] := by
   refine ⟨rfl, rfl, by decide, ⟨by decide, by decide⟩, fun h => ?_⟩
   exact absurd rfl (h.2 [] (by decide))
+
+/-- Hence the path hypothesis of the history theorems (`Hist.noOverlap`, `DirsOK`) is discharged for every fallback-only
+    `output_dirs` — the shipped configuration — and every duplicate-free list of clean module paths. -/
+theorem paths_fallback_only_noOverlap (cfg : Cfg) (d : Str) (hd : cfg.dirs = [d])
+    (hcwd : Str.startsWith cfg.cwd ['/'] = true) (hext : '/' ∉ extension cfg.lang)
+    (mods : List Str) (hnd : mods.Nodup) (hclean : ∀ m ∈ mods, CleanMod m) : NoOverlap cfg mods :=
+  noOverlap_fallback_only cfg d hd hcwd hext mods hnd hclean
+
+example : [cM1, cM2].Nodup ∧ ∀ m ∈ [cM1, cM2], CleanMod m := by
+  refine ⟨by decide, fun m hm => ?_⟩
+  simp only [List.mem_cons, List.not_mem_nil, or_false] at hm
+  rcases hm with rfl | rfl <;> exact ⟨by decide, by decide⟩
 
 /-- full statement: distinct module paths have distinct output paths under every configuration -/
 def paths_statement : Prop :=
